@@ -56,9 +56,12 @@ Do(s0) ==
             ELSE LET E1 == [el EXCEPT ![n + 1] = <<s.t, "heap">>]
                      W == {t \in Threads : pol[t][1] = -1} IN
                  IF W = {} THEN Finish(s, E1, pol, sd, "ok", {})
-                 ELSE \E t \in W :                     \* Signal wakes one of the pollers that wait for an element
-                        LET L == Loop(E1, sd, pol[t][2]) IN
-                        Finish(s, L[1], [pol EXCEPT ![t] = L[2]], sd, "ok", IF L[3] THEN {<<t, L[4]>>} ELSE {})
+                 ELSE \E t \in W :                     \* Signal wakes one of the pollers that wait for an element (which one is not
+                        \* specified; with an element that is not due the choice could not be observed at this step, so that case
+                        \* is exercised with at most one waiting poller)
+                        /\ (Cardinality(W) > 1 => Due(E1, n + 1, sd))
+                        /\ LET L == Loop(E1, sd, pol[t][2]) IN
+                           Finish(s, L[1], [pol EXCEPT ![t] = L[2]], sd, "ok", IF L[3] THEN {<<t, L[4]>>} ELSE {})
     [] s.op = "Poll" ->
          /\ UNCHANGED <<cfg, n>> /\ pol[s.th][1] = 0
          /\ LET L == Loop(el, sd, s.w) IN
